@@ -41,10 +41,12 @@ def build():
         "engines": [
             {"name": "kani", "path": "/verif/lib/rv/driver.py", "serves_properties": sorted(props.PROPS),
              "kind_free_text": "Kani 0.68 (CBMC 6.11 + CaDiCaL) bounded model checking of harnesses injected into a copy of the working tree"},
+            {"name": "mir2smt", "path": "/verif/lib/rv/mir2smt.py", "serves_properties": ["C14"],
+             "kind_free_text": "translation of the compiler's MIR of MessageEncoder::encode (nightly -Zunpretty=mir, dev and release profiles) into SMT-LIB2 bit-vectors: one loop iteration + epilogue from an arbitrary accumulator value; z3 4.8.12 decides, sat answers cross-checked with cvc5 1.0 and replayed natively"},
         ],
         "checks": checks,
         "not_applicable": na,
-        "notes": "Exit 0 = every query SUCCESSFUL with all reachability covers satisfied; exit 1 = VIOLATION (counterexample replayed natively where the harness has no nondeterministic stub); exit 2 = inconclusive (build failure, time/memory cap, non-reproducing counterexample). Known findings: /verif/known_findings.json.",
+        "notes": "Exit 0 = every query SUCCESSFUL with all reachability covers satisfied; exit 1 = VIOLATION (counterexample replayed natively where the harness has no nondeterministic stub); exit 2 = inconclusive (build failure, time/memory cap, non-reproducing counterexample, or a result containing memory-model failures of the model checker that persists after a clean rebuild in a fresh copy). Known findings: /verif/known_findings.json.",
     }
     return m
 
